@@ -859,10 +859,13 @@ func init() {
 			}
 			sort.Strings(ss)
 			for i := range vs {
+				e.noteStore(&vs[i], ss[i])
 				vs[i] = ss[i]
 			}
 			return nil
 		},
+		"sort.Slice":       sortSlice,
+		"sort.SliceStable": sortSlice,
 		"strconv.FormatFloat": func(e *Exec, c *frame, a []Value) Value {
 			f := a[0].(*Term)
 			if !f.conc() {
@@ -1309,4 +1312,36 @@ func strSlice(ss []string) []Value {
 func (e *Exec) newError(msg string) Value {
 	fn := e.prog.ImportedPackage("errors").Func("New")
 	return e.callSSAraw(nil, fn, []Value{msg}, nil)
+}
+
+
+// sortSlice models sort.Slice / sort.SliceStable as an insertion sort that calls the real less
+// closure and forks on its (possibly symbolic) result; every swap goes through the frame monitor.
+// (sort.Slice is not stable natively: the order of equal elements is one of the allowed outcomes.)
+func sortSlice(e *Exec, c *frame, a []Value) Value {
+	xi, ok := a[0].(Iface)
+	if !ok || xi.T == nil {
+		panic(goPanic{"sort.Slice: nil slice argument"})
+	}
+	vs, ok := xi.V.([]Value)
+	if !ok {
+		panic(abort("sort.Slice on a non-slice"))
+	}
+	for i := 1; i < len(vs); i++ {
+		for j := i; j > 0; j-- {
+			r, ok := e.call(c, a[1], []Value{cBV(uint64(j), 64), cBV(uint64(j-1), 64)}, 0).(*Term)
+			if !ok {
+				panic(abort("sort.Slice: less did not return a bool"))
+			}
+			if !e.branch(r) {
+				break
+			}
+			x, y := vs[j], vs[j-1]
+			e.noteStore(&vs[j], y)
+			vs[j] = y
+			e.noteStore(&vs[j-1], x)
+			vs[j-1] = x
+		}
+	}
+	return nil
 }
